@@ -43,6 +43,8 @@ type RTScale struct {
 	Singles                                    int
 	Extreme, Random, Runs, Boundary, Huge      int
 	Compositions                               int // N for all-compositions (0 = none)
+	Defaults                                   int // records of the no-options case (0 = none)
+	Big                                        int // records of the big-single-page case (0 = none)
 	Codecs                                     []int
 	StructPages                                []int
 	MaxRandomRecs, MaxRunsRecs, MaxExtremeRecs int
@@ -51,10 +53,10 @@ type RTScale struct {
 // DefaultScale returns the scale of the shared round-trip workload.
 func DefaultScale(thorough bool) RTScale {
 	if thorough {
-		return RTScale{StructCap: 150, Singles: 40, Extreme: 40, Random: 80, Runs: 40, Boundary: 30, Huge: 2, Compositions: 7,
+		return RTScale{StructCap: 150, Singles: 40, Extreme: 40, Random: 80, Runs: 40, Boundary: 30, Huge: 2, Compositions: 7, Defaults: 3100, Big: 9000,
 			Codecs: []int{0, 1, 2}, StructPages: []int{1, 2, 3, 7, 1000}, MaxRandomRecs: 200, MaxRunsRecs: 600, MaxExtremeRecs: 60}
 	}
-	return RTScale{StructCap: 60, Singles: 12, Extreme: 6, Random: 10, Runs: 6, Boundary: 4, Huge: 0, Compositions: 5,
+	return RTScale{StructCap: 60, Singles: 12, Extreme: 6, Random: 10, Runs: 6, Boundary: 4, Huge: 0, Compositions: 5, Defaults: 2100, Big: 5000,
 		Codecs: []int{0, 1, 2}, StructPages: []int{1, 2, 3, 1000}, MaxRandomRecs: 120, MaxRunsRecs: 300, MaxExtremeRecs: 40}
 }
 
@@ -74,6 +76,26 @@ func RTWorkload(c *Ctx, sh *Shape, sc RTScale, f func(cs *RTCase)) {
 		}
 	}
 	structRecs := GenRecords(s, GenStruct, sc.StructCap, nil, c.Thorough)
+	if sc.Defaults > 0 {
+		// no options at all: default page size (1000) and default codec, crossing the page limit twice
+		id := fmt.Sprintf("%s/defaults", sh.Name)
+		if c.Take(id) {
+			rng := Rng(c.Seed, id)
+			recs := GenRecords(s, GenRuns, sc.Defaults, rng, false)
+			f(&RTCase{ID: id, Shape: sh, Gen: GenRuns, Recs: recs, Partition: []int{len(recs) - 1001, 1001}, Page: 0, Codec: CodecDefault})
+		}
+		// many row groups
+		id = fmt.Sprintf("%s/manyrowgroups", sh.Name)
+		if c.Take(id) {
+			rng := Rng(c.Seed, id)
+			recs := GenRecords(s, GenRandom, 300, rng, false)
+			part := make([]int, len(recs))
+			for i := range part {
+				part[i] = 1
+			}
+			f(&RTCase{ID: id, Shape: sh, Gen: GenRandom, Recs: recs, Partition: part, Page: 1000, Codec: CodecSnappy})
+		}
+	}
 	for _, codec := range sc.Codecs {
 		cn := CodecNames[codec]
 		pre := fmt.Sprintf("%s/%s", sh.Name, cn)
@@ -98,6 +120,26 @@ func RTWorkload(c *Ctx, sh *Shape, sc RTScale, f func(cs *RTCase)) {
 			rs := pickSpread(structRecs, n)
 			for ci, part := range Compositions(n, 10) {
 				emit(&RTCase{ID: fmt.Sprintf("%s/struct/comp%d", pre, ci), Gen: GenStruct, Recs: rs, Partition: part, Page: 2, Codec: codec})
+			}
+		}
+		// big single page (tens of KiB per column: compression windows, large buffers)
+		if sc.Big > 0 {
+			id := fmt.Sprintf("%s/bigpage", pre)
+			if c.Take(id) {
+				rng := Rng(c.Seed, id)
+				recs := GenRecords(s, GenRuns, sc.Big, rng, false)
+				f(&RTCase{ID: id, Shape: sh, Gen: GenRuns, Recs: recs, Partition: []int{len(recs)}, Page: 100000, Codec: codec})
+			}
+		}
+		// pages whose fixed-width bodies are exactly 2^k bytes (buffer / window boundaries)
+		if sc.Big > 0 && (sh.Name == "p1" || sh.Name == "p4") {
+			for _, page := range []int{1024, 4096, 8192} {
+				id := fmt.Sprintf("%s/aligned/page=%d", pre, page)
+				if c.Take(id) {
+					rng := Rng(c.Seed, id)
+					recs := GenRecords(s, GenUniform, 2*page+3, rng, false)
+					f(&RTCase{ID: id, Shape: sh, Gen: GenUniform, Recs: recs, Partition: []int{len(recs)}, Page: page, Codec: codec})
+				}
 			}
 		}
 		gens := []struct {
